@@ -11,7 +11,10 @@
        of it: the history-table order), and best m says that m is accepted and leads to a position q with - nmx (d-1) q = v.
    So: no move is listed twice (AllMoves has no two Equal entries, C03), every move listed attains the value, and every entry of
    AllMoves that attains it is listed - as itself, or as pm when it is Equal to pm.
-   When the flag IS set before the second pass ends, the listed set can be wrong (SearchAll3.v: cancelled_lists_losing_move). *)
+   Repaired code (pinned = false: after every child search of the second pass the flag is read and the loop stops when it is set): for
+   EVERY cancellation point the listed heads are a PREFIX of that filter - every listed move attains the value - and a call that is not
+   reported as cancelled lists all of it.  Code before the repair (pinned = true): the same only while the flag is unset; once it is set the
+   listed set can be wrong (SearchAll4.v: cancelled_lists_losing_moves_pinned). *)
 From Coq Require Import NArith ZArith List Bool Lia Permutation.
 Require Import Board Move GameOver Eval Search NegamaxSpec SearchGen SearchExact CancelFacts SearchNeg1 SearchAll1.
 Import ListNotations.
@@ -40,13 +43,14 @@ Notation nm := (nmx basis eval).
 
 (* the second pass never lowers the evaluation counter *)
 Lemma aa_loop_mono d v pm pvt : forall n s g out,
-  evals s <= evals (fst (aa_loop pinned basis cfg k d v pm pvt n s g out)).
+  evals s <= evals (fst (fst (aa_loop pinned basis cfg k d v pm pvt n s g out))).
 Proof.
   induction n; intros s g out; cbn [aa_loop]; [cbn [fst]; lia|].
   destruct (mg_next pinned basis cfg (gfuel g) s g) as [g' [[m q]|]]; [|cbn [fst]; lia].
   pose proof (srch_mono pinned basis cfg k 40 false (set_fm s 0 m) q 1 (d - 1) pvt (- v - 1) (- v + 1) true) as M.
   destruct (srch pinned basis cfg k 40 false (set_fm s 0 m) q 1 (d - 1) pvt (- v - 1) (- v + 1) true) as [s1 [ms cv]].
   cbn [fst set_fm evals] in M.
+  destruct (negb pinned && cancelled k s1); [cbn [fst]; exact M|].
   destruct (negb (- cv =? v)); [etransitivity; [exact M|apply IHn]|].
   destruct (move_equal m pm); (etransitivity; [exact M|apply IHn]).
 Qed.
@@ -97,19 +101,24 @@ Proof.
   - apply Z.eqb_neq. lia.
 Qed.
 
-(* the loop of the second pass, after pm has been searched *)
+(* the loop of the second pass, after pm has been searched.  F = the heads the uninterrupted loop would list from here on. *)
 Lemma aa_loop_ok : forall n s g out ms j,
-  SI s -> genst cfg p pm pvt s g ms j -> Permutation ms (all_moves p) -> (length (skipn (Z.to_nat j) ms) < n)%nat ->
+  SI s -> (pinned = false -> cancelled k s = false) ->
+  genst cfg p pm pvt s g ms j -> Permutation ms (all_moves p) -> (length (skipn (Z.to_nat j) ms) < n)%nat ->
   let r := aa_loop pinned basis cfg k (Z.of_nat (S d')) v pm pvt n s g out in
-  SI (fst r) /\ exists tails, snd r = out ++ tails /\ Forall line_ok tails /\
-    (cancelled k (fst r) = false -> map (hd move0) tails = filter best (filter (good basis p pm) (skipn (Z.to_nat j) ms))).
+  let F := filter best (filter (good basis p pm) (skipn (Z.to_nat j) ms)) in
+  SI (fst (fst r)) /\ (pinned = false -> snd r = false -> cancelled k (fst (fst r)) = false) /\
+  exists tails, snd (fst r) = out ++ tails /\ Forall line_ok tails /\
+    (pinned = false \/ cancelled k (fst (fst r)) = false -> exists rest', F = map (hd move0) tails ++ rest') /\
+    (cancelled k (fst (fst r)) = false -> map (hd move0) tails = F).
 Proof.
-  induction n; intros s g out ms j HS G PERM HN; [lia|].
+  induction n; intros s g out ms j HS HC G PERM HN; [lia|].
   cbv zeta. cbn [aa_loop].
   pose proof (scan_next pinned basis cfg p pm pvt s g ms j G) as SC.
   destruct (filter (good basis p pm) (skipn (Z.to_nat j) ms)) as [|m tl_] eqn:EF.
   { destruct (mg_next pinned basis cfg (gfuel g) s g) as [g' nx]. cbn [snd] in SC. subst nx. cbn [fst snd].
-    split; [exact HS|]. exists []. rewrite app_nil_r. split; [reflexivity|]. split; [constructor|]. intros _. reflexivity. }
+    split; [exact HS|]. split; [intros E _; apply HC; exact E|]. exists []. rewrite app_nil_r. split; [reflexivity|]. split; [constructor|].
+    split; [intros _; exists []; reflexivity|intros _; reflexivity]. }
   destruct SC as (g' & q & j' & E & T & Hin & G' & EF' & LT). rewrite E.
   assert (Hm : In m (all_moves p)) by (apply (Permutation_in m PERM Hin)).
   pose proof (gen_child m q Hm T) as Hq.
@@ -117,6 +126,11 @@ Proof.
   pose proof (srch_mono pinned basis cfg k 40 false (set_fm s 0 m) q 1 (Z.of_nat (S d') - 1) pvt (- v - 1) (- v + 1) true) as MO.
   destruct (srch pinned basis cfg k 40 false (set_fm s 0 m) q 1 (Z.of_nat (S d') - 1) pvt (- v - 1) (- v + 1) true) as [s1 [msc cv]].
   cbn [fst snd set_fm evals] in R, MO. destruct R as (HS1 & Hmsc & VS).
+  destruct (negb pinned && cancelled k s1) eqn:EBRK.
+  { (* the repaired code stops here *)
+    cbn [fst snd]. split; [exact HS1|]. split; [intros _ F; discriminate F|]. exists []. rewrite app_nil_r. split; [reflexivity|]. split; [constructor|].
+    split; [intros _; eexists; reflexivity|]. intros NC. apply andb_true_iff in EBRK. destruct EBRK as (_ & EB). congruence. }
+  assert (HC1 : pinned = false -> cancelled k s1 = false) by (intros EP; rewrite EP in EBRK; exact EBRK).
   assert (GM : good basis p pm m = true).
   { assert (In m (filter (good basis p pm) (skipn (Z.to_nat j) ms))) by (rewrite EF; left; reflexivity).
     apply filter_In in H. apply H. }
@@ -124,31 +138,53 @@ Proof.
   { rewrite move_equal_comm. unfold good in GM. destruct (move_equal pm m); [discriminate GM|reflexivity]. }
   assert (BM : best m = (x q =? v)) by (unfold best; rewrite T; reflexivity).
   rewrite NE.
-  (* the rest of the loop, whichever way this move goes *)
   assert (REST : forall out1, let r := aa_loop pinned basis cfg k (Z.of_nat (S d')) v pm pvt n s1 g' out1 in
-            SI (fst r) /\ evals s1 <= evals (fst r) /\ exists tails, snd r = out1 ++ tails /\ Forall line_ok tails /\
-            (cancelled k (fst r) = false -> map (hd move0) tails = filter best tl_)).
+            SI (fst (fst r)) /\ (pinned = false -> snd r = false -> cancelled k (fst (fst r)) = false) /\ evals s1 <= evals (fst (fst r)) /\
+            exists tails, snd (fst r) = out1 ++ tails /\ Forall line_ok tails /\
+            (pinned = false \/ cancelled k (fst (fst r)) = false -> exists rest', filter best tl_ = map (hd move0) tails ++ rest') /\
+            (cancelled k (fst (fst r)) = false -> map (hd move0) tails = filter best tl_)).
   { intros out1. cbv zeta.
-    destruct (IHn s1 g' out1 ms j' HS1 (G' s1) PERM ltac:(lia)) as (A & tails & B & C & D).
-    split; [exact A|]. split; [apply aa_loop_mono|]. exists tails. rewrite EF' in D. auto. }
+    destruct (IHn s1 g' out1 ms j' HS1 HC1 (G' s1) PERM ltac:(lia)) as (A & A4 & tails & B & C & D1 & D2).
+    split; [exact A|]. split; [exact A4|]. split; [apply aa_loop_mono|]. exists tails. rewrite EF' in D1, D2. auto. }
+  assert (NCS : forall sf, evals s1 <= evals sf -> pinned = false \/ cancelled k sf = false -> cancelled k s1 = false).
+  { intros sf MONO [EP|NC]; [apply HC1; exact EP|apply (canc_le k s1 sf NC MONO)]. }
+  cbn [filter]. rewrite BM.
   destruct (negb (- cv =? v)) eqn:EV.
-  - destruct (REST out) as (A & MONO & tails & B & C & D). split; [exact A|]. exists tails. split; [exact B|]. split; [exact C|].
-    intros NC. assert (NC1 : cancelled k s1 = false) by (apply (canc_le k s1 _ NC); exact MONO).
-    cbn [filter]. rewrite BM, <- (VS NC1). apply negb_true_iff in EV. rewrite EV. apply D. exact NC.
-  - destruct (REST (out ++ [m :: msc])) as (A & MONO & tails & B & C & D). split; [exact A|].
+  - destruct (REST out) as (A & A4 & MONO & tails & B & C & D1 & D2). split; [exact A|]. split; [exact A4|]. exists tails. split; [exact B|]. split; [exact C|].
+    apply negb_true_iff in EV. split.
+    + intros H0. rewrite <- (VS (NCS _ MONO H0)), EV. apply D1. exact H0.
+    + intros NC. rewrite <- (VS (NCS _ MONO (or_intror NC))), EV. apply D2. exact NC.
+  - destruct (REST (out ++ [m :: msc])) as (A & A4 & MONO & tails & B & C & D1 & D2). split; [exact A|]. split; [exact A4|].
     exists ((m :: msc) :: tails). split; [rewrite B, <- app_assoc; reflexivity|]. split.
     + constructor; [|exact C]. exists m, msc, q. refine (conj eq_refl (conj Hm (conj T _))). constructor; [apply all_moves_okm with p; exact Hm|exact Hmsc].
-    + intros NC. assert (NC1 : cancelled k s1 = false) by (apply (canc_le k s1 _ NC); exact MONO).
-      cbn [filter]. rewrite BM, <- (VS NC1). apply negb_false_iff in EV. rewrite EV. cbn [map hd]. rewrite (D NC). reflexivity.
+    + apply negb_false_iff in EV. split.
+      * intros H0. rewrite <- (VS (NCS _ MONO H0)), EV. destruct (D1 H0) as (rest' & ER). exists rest'. cbn [map hd app]. rewrite ER. reflexivity.
+      * intros NC. rewrite <- (VS (NCS _ MONO (or_intror NC))), EV. cbn [map hd]. rewrite (D2 NC). reflexivity.
+Qed.
+
+(* filter best (filter good ms) in one filter *)
+Lemma heads_filter ms : Permutation ms (all_moves p) ->
+  filter best (filter (good basis p pm) ms) = filter (fun m => negb (move_equal pm m) && best m) ms.
+Proof.
+  intros PERM. rewrite filter_filter. apply filter_ext_in. intros m Hm.
+  assert (Hm' : In m (all_moves p)) by (apply (Permutation_in m PERM Hm)).
+  unfold good, best. destruct (try_move basis p m) as [q|]; [|rewrite !andb_false_r; reflexivity].
+  assert (M0 : move_equal move0 m = false).
+  { pose proof (all_moves_types p m Hm') as TY. unfold move_equal, move0. cbn [mX mY mT mS].
+    replace (0 =? mT m)%N with false by (symmetry; apply N.eqb_neq; lia). rewrite !andb_false_r. reflexivity. }
+  rewrite M0. cbn [negb]. rewrite !andb_true_r. reflexivity.
 Qed.
 
 (* the whole second pass *)
 Lemma aa_pass s q0 : SI s -> try_move basis p pm = Some q0 -> In q0 (children basis p) -> okm pm ->
   let g0 := new_gen s None (pm :: pvt) 0 (Z.of_nat (S d')) p in
   let r := aa_loop pinned basis cfg k (Z.of_nat (S d')) v pm pvt (gfuel g0) s g0 [pm :: pvt] in
-  SI (fst r) /\ exists ms tails, snd r = (pm :: pvt) :: tails /\ Forall line_ok tails /\
+  SI (fst (fst r)) /\ (pinned = false -> snd r = false -> cancelled k (fst (fst r)) = false) /\ (pinned = true -> snd r = false) /\
+  exists ms tails, snd (fst r) = (pm :: pvt) :: tails /\ Forall line_ok tails /\
     Permutation ms (all_moves p) /\ ((1 <? Z.of_nat (S d')) && negb (c_nosort cfg) = false -> ms = all_moves p) /\
-    (cancelled k (fst r) = false -> map (hd move0) tails = filter (fun m => negb (move_equal pm m) && best m) ms).
+    (pinned = false \/ cancelled k (fst (fst r)) = false ->
+       exists rest', filter (fun m => negb (move_equal pm m) && best m) ms = map (hd move0) tails ++ rest') /\
+    (cancelled k (fst (fst r)) = false -> map (hd move0) tails = filter (fun m => negb (move_equal pm m) && best m) ms).
 Proof.
   intros HS T Hq0 Hpm. cbv zeta.
   destruct (first_next pinned basis cfg p pm pvt s (Z.of_nat (S d')) q0 T) as (g1 & E & G1). cbv zeta in E.
@@ -158,27 +194,33 @@ Proof.
   pose proof (aa_child s pm q0 HS Hq0) as R. cbv zeta in R.
   destruct (srch pinned basis cfg k 40 false (set_fm s 0 pm) q0 1 (Z.of_nat (S d') - 1) pvt (- v - 1) (- v + 1) true) as [s1 [msc cv]].
   cbn [fst snd] in R. destruct R as (HS1 & _ & _).
+  destruct (negb pinned && cancelled k s1) eqn:EBRK.
+  { cbn [fst snd]. split; [exact HS1|]. split; [intros _ F; discriminate F|]. split; [intros EP; rewrite EP in EBRK; discriminate EBRK|].
+    exists (all_moves p), []. split; [reflexivity|]. split; [constructor|]. split; [reflexivity|]. split; [reflexivity|].
+    split; [intros _; eexists; reflexivity|]. intros NC. apply andb_true_iff in EBRK. destruct EBRK as (_ & EB). congruence. }
+  assert (HC1 : pinned = false -> cancelled k s1 = false) by (intros EP; rewrite EP in EBRK; exact EBRK).
   rewrite move_equal_refl.
   set (ms := msof cfg p s1 (Z.of_nat (S d'))).
-  assert (L : forall out, aa_loop pinned basis cfg k (Z.of_nat (S d')) v pm pvt (length (all_moves p) + 7) s1 g1 out =
-                          aa_loop pinned basis cfg k (Z.of_nat (S d')) v pm pvt (length (all_moves p) + 7) s1 g1 out) by reflexivity.
   assert (PERM : Permutation ms (all_moves p)) by apply msof_perm.
-  destruct (aa_loop_ok (length (all_moves p) + 7) s1 g1 [pm :: pvt] ms 0 HS1 (G1 s1) PERM
-              ltac:(cbn [Z.to_nat skipn]; rewrite (Permutation_length PERM); lia)) as (A & tails & B & C & D).
-  assert (RES : let r := aa_loop pinned basis cfg k (Z.of_nat (S d')) v pm pvt (length (all_moves p) + 7) s1 g1 [pm :: pvt] in
-          SI (fst r) /\ exists ms tails, snd r = (pm :: pvt) :: tails /\ Forall line_ok tails /\
-          Permutation ms (all_moves p) /\ ((1 <? Z.of_nat (S d')) && negb (c_nosort cfg) = false -> ms = all_moves p) /\
-          (cancelled k (fst r) = false -> map (hd move0) tails = filter (fun m => negb (move_equal pm m) && best m) ms)).
-  { cbv zeta. split; [exact A|]. exists ms, tails. split; [exact B|]. split; [exact C|]. split; [exact PERM|]. split.
-    - intros E0. unfold ms, msof. rewrite E0. reflexivity.
-    - intros NC. rewrite (D NC). cbn [Z.to_nat skipn]. rewrite filter_filter. apply filter_ext_in. intros m Hm.
-      assert (Hm' : In m (all_moves p)) by (apply (Permutation_in m PERM Hm)).
-      unfold good, best. destruct (try_move basis p m) as [q|]; [|rewrite !andb_false_r; reflexivity].
-      assert (M0 : move_equal move0 m = false).
-      { pose proof (all_moves_types p m Hm') as TY. unfold move_equal, move0. cbn [mX mY mT mS].
-        replace (0 =? mT m)%N with false by (symmetry; apply N.eqb_neq; lia). rewrite !andb_false_r. reflexivity. }
-      rewrite M0. cbn [negb]. rewrite !andb_true_r. reflexivity. }
-  cbv zeta in RES. destruct (negb (- cv =? v)); exact RES.
+  pose proof (aa_loop_ok (length (all_moves p) + 7) s1 g1 [pm :: pvt] ms 0 HS1 HC1 (G1 s1) PERM
+              ltac:(cbn [Z.to_nat skipn]; rewrite (Permutation_length PERM); lia)) as RES.
+  cbv zeta in RES. cbn [Z.to_nat skipn] in RES. rewrite (heads_filter ms PERM) in RES.
+  assert (PB : forall n out, pinned = true -> snd (aa_loop pinned basis cfg k (Z.of_nat (S d')) v pm pvt n s1 g1 out) = false).
+  { intros n out0 EP. rewrite EP. clear. revert s1 g1 out0. induction n; intros s1 g1 out0; cbn [aa_loop]; [reflexivity|].
+    destruct (mg_next true basis cfg (gfuel g1) s1 g1) as [g' [[m q]|]]; [|reflexivity].
+    destruct (srch true basis cfg k 40 false (set_fm s1 0 m) q 1 (Z.of_nat (S d') - 1) pvt (- v - 1) (- v + 1) true) as [s2 [ms2 cv2]].
+    cbn [negb andb]. destruct (negb (- cv2 =? v)); [apply IHn|]. destruct (move_equal m pm); apply IHn. }
+  assert (FIN : let r := aa_loop pinned basis cfg k (Z.of_nat (S d')) v pm pvt (length (all_moves p) + 7) s1 g1 [pm :: pvt] in
+          SI (fst (fst r)) /\ (pinned = false -> snd r = false -> cancelled k (fst (fst r)) = false) /\ (pinned = true -> snd r = false) /\
+          exists ms tails, snd (fst r) = (pm :: pvt) :: tails /\ Forall line_ok tails /\
+            Permutation ms (all_moves p) /\ ((1 <? Z.of_nat (S d')) && negb (c_nosort cfg) = false -> ms = all_moves p) /\
+            (pinned = false \/ cancelled k (fst (fst r)) = false ->
+               exists rest', filter (fun m => negb (move_equal pm m) && best m) ms = map (hd move0) tails ++ rest') /\
+            (cancelled k (fst (fst r)) = false -> map (hd move0) tails = filter (fun m => negb (move_equal pm m) && best m) ms)).
+  { cbv zeta. destruct RES as (A & A4 & tails & B & C & D1 & D2). split; [exact A|]. split; [exact A4|]. split; [apply PB|].
+    exists ms, tails. split; [exact B|]. split; [exact C|]. split; [exact PERM|]. split; [|split; assumption].
+    intros E0. unfold ms, msof. rewrite E0. reflexivity. }
+  cbv zeta in FIN. destruct (negb (- cv =? v)); exact FIN.
 Qed.
 End Root.
 
@@ -221,21 +263,27 @@ Proof.
   - apply (IHn (i + 1) s1 (m :: rest) nv _ i HS1 ltac:(lia) ltac:(lia) ltac:(lia) POST _ _ _ _ _ _ H).
 Qed.
 
-(* what AnalyzeAll reports *)
-Definition all_result (p : position) (sk : sstate) (pvs : list (list rmove)) (v d : Z) : Prop :=
+(* what AnalyzeAll reports; c = the Canceled flag it reports.
+   F = the first moves the uninterrupted second pass lists after Analyze's line, in the generator's order. *)
+Definition all_result (p : position) (sk : sstate) (pvs : list (list rmove)) (v d : Z) (c : bool) : Prop :=
   v = nm (Z.to_nat d) p /\
   exists pm pvt q0 ms tails,
     pvs = (pm :: pvt) :: tails /\ okl (pm :: pvt) /\
     try_move basis p pm = Some q0 /\ In q0 (children basis p) /\ - nm (Z.to_nat d - 1) q0 = v /\
     Forall (line_ok p) tails /\
     Permutation ms (all_moves p) /\ ((1 <? d) && negb (c_nosort cfg) = false -> ms = all_moves p) /\
-    (cancelled k sk = false ->
-     map (hd move0) tails = filter (fun m => negb (move_equal pm m) && best (Z.to_nat d - 1) p m) ms).
+    let F := filter (fun m => negb (move_equal pm m) && best (Z.to_nat d - 1) p m) ms in
+    (* repaired code, any cancellation point (or the old code while the flag is unset): a prefix of F *)
+    (pinned = false \/ cancelled k sk = false -> exists rest', F = map (hd move0) tails ++ rest') /\
+    (* the flag was never seen set: all of F *)
+    (cancelled k sk = false -> map (hd move0) tails = F) /\
+    (* repaired code: a call not reported as cancelled never saw the flag *)
+    (pinned = false -> c = false -> cancelled k sk = false).
 
 Theorem analyze_all_exactx : forall s p sk pvs v d c,
   SI s -> (forall d, (1 <= d <= 16)%nat -> Z.of_nat d <= c_depth cfg -> Pos d p) ->
   analyze_all_gen pinned basis cfg k s p = (sk, (pvs, v, d, c)) ->
-  SI sk /\ (d = 0 /\ pvs = [] \/ 1 <= d <= 16 /\ d <= c_depth cfg /\ is_over p = false /\ all_result p sk pvs v d).
+  SI sk /\ (d = 0 /\ pvs = [] \/ 1 <= d <= 16 /\ d <= c_depth cfg /\ is_over p = false /\ all_result p sk pvs v d c).
 Proof.
   intros s p sk pvs v d c HS HP H. rewrite analyze_all_unfold in H. unfold analyze_gen, analyze_depth in H.
   assert (ER : az_root pinned (az_start s) p = (0, [], 0)).
@@ -253,11 +301,12 @@ Proof.
   assert (Hpvt : okl pvt) by (inversion Hpv; assumption).
   pose proof (aa_pass dn ltac:(unfold dn; lia) p Hp EO pm pvt Hpvt s1 q0 HS1 T Hq0 Hpm) as R. cbv zeta in R.
   rewrite <- ED in R. replace (S dn) with (Z.to_nat d1) in R by (unfold dn; lia). unfold eval in R.
-  match type of H with context [aa_loop ?a ?b ?c ?d ?e ?f ?g ?h ?n ?s ?gg ?o] => destruct (aa_loop a b c d e f g h n s gg o) as [s2 out] end.
-  cbn [fst snd] in R. clear ED. inversion H; subst. destruct R as (HS2 & ms & tails & -> & LO & PERM & SORT & HEADS).
+  match type of H with context [aa_loop ?a ?b ?c ?d ?e ?f ?g ?h ?n ?s ?gg ?o] => destruct (aa_loop a b c d e f g h n s gg o) as [[s2 out] brk] end.
+  cbn [fst snd] in R. clear ED. inversion H; subst. destruct R as (HS2 & A4 & _ & ms & tails & -> & LO & PERM & SORT & HPRE & HEADS).
   split; [exact HS2|]. right. split; [exact D1|]. split; [exact D2|]. split; [exact EO|].
   split; [reflexivity|]. exists pm, pvt, q0, ms, tails.
   refine (conj eq_refl (conj Hpv (conj T (conj Hq0 (conj X (conj LO (conj PERM (conj SORT _)))))))).
-  intros NC. rewrite (HEADS NC). reflexivity.
+  cbv zeta. split; [exact HPRE|]. split; [exact HEADS|].
+  intros EP EC. apply orb_false_iff in EC. destruct EC as (_ & EB). apply A4; assumption.
 Qed.
 End AllIx.
